@@ -1,4 +1,5 @@
 import L21.Props.C04
+import L21.Props.C05RT
 import L21.Props.C11
 #print axioms L21.LefEnum.c04_enum_strings_canonical
 #print axioms L21.LefEnum.c04_enum_no_shadowing
@@ -6,3 +7,5 @@ import L21.Props.C11
 #print axioms L21.LefEnum.c04_dbu
 #print axioms L21.LefEnum.c04_dbu_only_legal
 #print axioms L21.LefLex.c11_tokens_are_substrings
+#print axioms L21.Lef.c05_write_read_tokens
+#print axioms L21.Lef.c05_decimal_text_roundtrip
